@@ -438,6 +438,17 @@ func otherPanicsRule(r *Run, rule string, m *lexerModel) {
 					} else {
 						r.Bad(rule, f.Name(), con, w.Pos(x.Pos()), "single-result type assertion on a value whose dynamic type is not fixed by construction: it panics on any other type")
 					}
+				case *ast.CallExpr:
+					// a call that panics by contract on template-controlled input: panic(...) itself, and the Must*
+					// constructors of the standard library (regexp.MustCompile on a literal of the template)
+					if id, isId := unparen(x.Fun).(*ast.Ident); isId && id.Name == "panic" {
+						if _, isB := info.Uses[id].(*types.Builtin); isB {
+							r.Bad(rule, f.Name(), "panic("+short(w.Fset, x)+")", w.Pos(x.Pos()), "the lexer, the parser and the tree report what they cannot handle as an error; a panic takes Parse (and the process) down")
+						}
+					}
+					if cal := calleeOf(info, x); cal != nil && cal.Pkg() != nil && !strings.HasPrefix(cal.Pkg().Path(), modPath) && strings.HasPrefix(cal.Name(), "Must") {
+						r.Bad(rule, f.Name(), "call of "+cal.Pkg().Name()+"."+cal.Name(), w.Pos(x.Pos()), cal.Pkg().Name()+"."+cal.Name()+" panics when its argument is not well formed: on text that comes from the template Parse panics instead of returning a syntax error")
+					}
 				case *ast.IndexExpr:
 					tv, ok := info.Types[x.X]
 					if !ok {
